@@ -24,6 +24,7 @@ META = {
                     "GAF reader stub: read_line(offset) returns the record registered at that offset"],
 }
 META["explanation"] += '  e2e/*: real index.run (optionally as the second index run of the execution, on another build of the graph with the same segment names) followed by the real view.run -r on its output.'
+META["explanation"] += '  The second contig is called chr1-2 (a dash, and a prefix that is another contig); regions on a contig nothing is aligned to are part of the region lists.'
 
 
 class AssocIndex:
@@ -288,7 +289,7 @@ def build(params):
             ivs, used = decode_layout(k, a_)
             a, b = a_[used], a_[used + 1]
             items = [(("x%d" % i, "chr1", s, e), [i]) for i, (s, e) in enumerate(ivs)]
-            items.append((("y0", "hapQ", 3, 9), [99]))
+            items.append((("y0", "chr1-2", 3, 9), [99]))
             idx = AssocIndex(items + [("ref_contig", ["chr1"])])
             want = ["x%d" % i for i, (s, e) in enumerate(ivs) if s <= b and a < e]
             rt.set_fuel(4 * k + 8)
@@ -328,7 +329,7 @@ def build(params):
             if i == 0 or i == k - 1:
                 offs.append(k * 10)
             items.append((("x%d" % i, "chr1", s, en), offs))
-        items.append((("y0", "hapQ", 3, 9), [(k + 1) * 10]))
+        items.append((("y0", "chr1-2", 3, 9), [(k + 1) * 10]))
         idx = AssocIndex(items + [("ref_contig", ["chr1"])])
         e.pickles["in.gaf.gvi"] = idx
         e.files["in.gaf.gvi"] = stubs.MFile("text", [], None)
@@ -339,7 +340,7 @@ def build(params):
                 # a contig of the graph none of whose nodes has alignments: nothing of it is in the index
                 regions.append(region_str("chrU", a, b))
             elif params.get("other") and r == 1:
-                regions.append(region_str("hapQ", a, b))
+                regions.append(region_str("chr1-2", a, b))
                 if 3 <= b and a < 9:
                     want_nodes.append("y0")
             else:
@@ -399,7 +400,7 @@ def replay(params, model, wd):
     else:
         regs = []
         for r in range(params["regions"]):
-            c = ("chrU" if params.get("other") == "unindexed" else "hapQ") if (params.get("other") and r == 1) else "chr1"
+            c = ("chrU" if params.get("other") == "unindexed" else "chr1-2") if (params.get("other") and r == 1) else "chr1"
             regs.append((c, a_[used + 2 * r], a_[used + 2 * r + 1]))
     # chr1 is tiled: gaps become unaligned filler nodes u<i>
     segs = []
@@ -410,7 +411,7 @@ def replay(params, model, wd):
         segs.append(("x%d" % i, "chr1", s, e - s, 0))
         pos = e
     segs.append(("utail", "chr1", pos, 5, 0))
-    segs.append(("y0", "hapQ", 3, 6, 1))
+    segs.append(("y0", "chr1-2", 3, 6, 1))
     segs.append(("v0", "chrU", 0, 50, 0))  # a second reference contig that nothing is aligned to
     gfa = os.path.join(wd, "g.gfa")
     with open(gfa, "w") as fh:
